@@ -13,6 +13,8 @@ for f in sorted(glob.glob(os.path.join(VERIF, "seeded", "*", "meta.json"))):
     if missed is None:
         missed = bool(m.get("history")) and "miss" in m["history"].lower()
     rnd = {"a": 1, "b": 2, "c": 3, "d": 4, "e": 4}.get(m["id"][-1], 5)
+    if not m["caught_by_quick_checks"] and m.get("caught_by_thorough_checks"):
+        m["caught_by_quick_checks"] = ["(thorough tier only: " + ", ".join(m["caught_by_thorough_checks"]) + ")"]
     t = tally.setdefault(rnd, [0, 0])
     t[0] += 1
     t[1] += 0 if missed else 1
